@@ -286,6 +286,86 @@ fn respell_case(r: &mut Rng) -> Option<Case> {
     Some(c)
 }
 
+/// Twin models whose constraint SIDE is itself a bare `abs{}` / `min{}` / `max{}` block with a coefficient that
+/// is a constant sub-expression in one twin and the folded literal in the other.  The bound inference only
+/// recognises literal coefficients, so the twins agree only if `normalized_for_bounds` normalises EVERY side
+/// (`Compile.normalizedForBounds_spec` in the model; the expression-level fact is `respell_normalize`).
+/// Compared on the implementation: acceptance / error kind, published domains and inferred ranges, compiled rows.
+fn respell_block_cases(r: &mut Rng, count: usize) -> Vec<Case> {
+    use rooc::{Comparison, OptimizationType, VariableType};
+    let num = |v: f64| Exp::Number(v);
+    let var = |n: &str| Exp::Variable(n.into());
+    let bx = |op: BinOp, l: Exp, rr: Exp| Exp::BinOp(op, Box::new(l), Box::new(rr));
+    let ds = vec![
+        gen_model::VarDecl { name: "x".into(), ty: VariableType::Real(f64::NEG_INFINITY, f64::INFINITY) },
+        gen_model::VarDecl { name: "y".into(), ty: VariableType::Real(f64::NEG_INFINITY, f64::INFINITY) },
+    ];
+    let mut out = vec![];
+    for i in 0..count {
+        let k = *r.pick(&[2.0, 3.0, 4.0, -2.0, 0.5, -4.0]);
+        // spellings of the constant k (all exact in binary floating point)
+        let spelled: Exp = match i % 5 {
+            0 => bx(BinOp::Add, num(k - 1.0), num(1.0)),
+            1 => bx(BinOp::Div, num(2.0 * k), num(2.0)),
+            2 => bx(BinOp::Sub, num(k + 1.0), num(1.0)),
+            3 => bx(BinOp::Mul, num(k / 2.0), num(2.0)),
+            _ => Exp::UnOp(UnOp::Neg, Box::new(num(-k))),
+        };
+        let commuted = r.chance(1, 4);
+        let term = |c: Exp| if commuted { bx(BinOp::Mul, var("x"), c) } else { bx(BinOp::Mul, c, var("x")) };
+        let kind = r.below(3);
+        let block = |t: Exp| match kind { 0 => Exp::Max(vec![t, var("y")]), 1 => Exp::Min(vec![t, var("y")]), _ => Exp::Abs(Box::new(t)) };
+        // the block bounds k*x from the side that makes the bound finite: max/abs <= b, min >= -b
+        let b = 10.0 + r.below(5) as f64;
+        let on_rhs = r.chance(1, 3);
+        let side = |t: Exp| -> Constraint {
+            let (blk, cmp, c) = match kind { 1 => (block(t), Comparison::GreaterOrEqual, num(-b)), _ => (block(t), Comparison::LessOrEqual, num(b)) };
+            if on_rhs {
+                let flipped = match cmp { Comparison::LessOrEqual => Comparison::GreaterOrEqual, _ => Comparison::LessOrEqual };
+                Constraint::new(c, flipped, blk, String::new())
+            } else { Constraint::new(blk, cmp, c, String::new()) }
+        };
+        // the other half of x's range, and an exact-value abs that needs the finite range
+        let other = if (k > 0.0) == (kind != 1) { Constraint::new(var("x"), Comparison::GreaterOrEqual, num(-7.0), String::new()) }
+                    else { Constraint::new(var("x"), Comparison::LessOrEqual, num(7.0), String::new()) };
+        let needs = Constraint::new(Exp::Abs(Box::new(var("x"))), Comparison::GreaterOrEqual, num(1.0), String::new());
+        let mk = |t: Exp| gen_model::build(OptimizationType::Max, var("x"), vec![side(t), other.clone(), needs.clone()], &ds);
+        let (m1, m2) = (mk(term(num(k))), mk(term(spelled)));
+        let (a, bb) = (Linearizer::linearize(m1.clone()), Linearizer::linearize(m2.clone()));
+        let (b1, b2) = (crate::props::c01::bounds_sx(&m1), crate::props::c01::bounds_sx(&m2));
+        let mut c = Case::default();
+        c.show = format!("{}  ~~respelled block side~~>  {}", format!("{}", m1).replace('\n', " ; "), format!("{}", m2).replace('\n', " ; "));
+        c.tags = vec!["respell".into(), "respell-block-side".into()];
+        c.nontrivial = true;
+        let err = |e: &rooc::LinearizationError| crate::props::c01::lin_error(e);
+        if b1 != b2 {
+            c.imp = "(bounds-differ)".into();
+            c.sig = Some("respelling-changes-bounds".into());
+            c.impl_violation = Some(format!("two spellings of the same coefficient inside a block that is a constraint side: inferred ranges / published domains differ: {} {}  vs  {} {}", b1.0, b1.1, b2.0, b2.1));
+        } else {
+            match (&a, &bb) {
+                (Ok(la), Ok(lb)) => {
+                    c.imp = "(both-compile)".into();
+                    if sx::lin_model(la) == sx::lin_model(lb) { c.tags.push("respell-identical-output".into()); }
+                    else {
+                        c.tags.push("respell-different-output".into());
+                        c.oracle = format!("py:{} {} {}", if r.chance(1, 2) { "c01" } else { "c02" }, sx::model(&m1), sx::lin_model(lb));
+                    }
+                }
+                (Err(x), Err(y)) if err(x) == err(y) => { c.imp = format!("(both-rejected {})", err(x)); c.tags.push("respell-both-rejected".into()); }
+                (x, y) => {
+                    c.imp = format!("(acceptance-differs {} {})", x.is_ok(), y.is_ok());
+                    c.sig = Some("respelling-changes-acceptance".into());
+                    let e = |z: &Result<rooc::LinearModel, rooc::LinearizationError>| z.as_ref().err().map(|e| err(e)).unwrap_or("(ok)".into());
+                    c.impl_violation = Some(format!("two spellings of the same coefficient inside a block that is a constraint side: {} vs {}", e(x), e(y)));
+                }
+            }
+        }
+        out.push(c);
+    }
+    out
+}
+
 pub fn generate(seed: u64, n: usize, thorough: bool, _corpus: Option<&str>) -> Vec<Case> {
     let mut r = Rng::new(seed);
     let mut cases = vec![];
@@ -373,5 +453,6 @@ pub fn generate(seed: u64, n: usize, thorough: bool, _corpus: Option<&str>) -> V
     for _ in 0..n / 4 {
         if let Some(c) = respell_case(&mut r) { cases.push(c); }
     }
+    cases.extend(respell_block_cases(&mut r, if thorough { 600 } else { 60 }));
     cases
 }
